@@ -861,6 +861,9 @@ func (e *Engine) evalCall(st *State, env *cenv, x *CExpr) (Val, error) {
 			return Val{}, err
 		}
 		if v.K == KSlice {
+			if v.Len == "0" {
+				return Val{K: KStr, T: "str_empty", Ty: types.Typ[types.String]}, nil
+			}
 			return Val{K: KStr, T: "(str_of " + st.heap("Hy") + " " + v.Base + " " + v.Off + " " + v.Len + ")", Ty: types.Typ[types.String]}, nil
 		}
 		if v.K == KStr {
